@@ -22,6 +22,7 @@
 #include "cppReferenceType.h"
 #include "cppExpression.h"
 #include "c10_oracle.h"
+#include <stdio.h>
 
 #ifndef MEMS
 #define MEMS 0x01        // bit set of member kinds to go through (bit k = M_* value k)
@@ -31,6 +32,9 @@
 #endif
 #ifndef PRESENCE
 #define PRESENCE 0xffff  // bit set over the 16 presence patterns (bit p: dc = p&1, cc = p&2, dt = p&4, pv = p&8)
+#endif
+#ifndef KINDS
+#define KINDS 0xfffffffffULL   // bit set over the 36 (dc kind, cc kind, dt kind) combinations: bit (dc-1)*12 + (cc-1)*4 + (dt-1)
 #endif
 #ifndef CHECKS
 #define CHECKS 0x1f      // 1 default-constructible, 2 copy-constructible, 4 destructible, 8 abstract, 16 polymorphic
@@ -71,57 +75,22 @@ static int storage_of(int kind) {
   }
 }
 
-// a symbolic (kind, access) for a special member that is present
-static void pick(int &kind, int &vis, bool is_dtor) {
-  kind = nondet_int();
-  vis = nondet_int();
-  ASSUME(kind >= K_USER && kind <= (is_dtor ? K_VIRTUAL : K_DELETE));
+static int pick_vis() {
+  int vis = nondet_int();
   ASSUME(vis >= A_PUBLIC && vis <= A_PRIVATE);
+  return vis;
 }
 
-NOINL static void check_class(int presence, int mem) {
-  C10Bits b;
-  b.dc = K_NONE; b.dc_vis = A_PUBLIC; b.cc = K_NONE; b.cc_vis = A_PUBLIC; b.dt = K_NONE; b.dt_vis = A_PUBLIC;
-  b.pv = (presence & 8) ? 1 : 0;
-  b.mem = mem;
-
-  // class A { ... };
-  CPPIdentifier *ident = new CPPIdentifier(std::string("A"));
-  CPPScope *scope = new CPPScope(nullptr, CPPNameComponent("A"), V_private);
-  CPPStructType *A = new CPPStructType(CPPExtensionType::T_class, ident, nullptr, scope, CPPFile());
-  scope->set_struct_type(A);
-  A->_incomplete = false;
-
-  if (presence & 1) {                                   // A();
-    pick(b.dc, b.dc_vis, false);
-    add_function(scope, "A", new CPPParameterList, CPPFunctionType::F_constructor, storage_of(b.dc), b.dc_vis);
-  }
-  if (presence & 2) {                                   // A(const A &);
-    pick(b.cc, b.cc_vis, false);
-    CPPParameterList *params = new CPPParameterList;
-    CPPType *const_a_ref = new CPPReferenceType(new CPPConstType(A), CPPReferenceType::VC_lvalue);
-    params->_parameters.push_back(new CPPInstance(const_a_ref, std::string("copy")));
-    add_function(scope, "A", params, CPPFunctionType::F_constructor | CPPFunctionType::F_copy_constructor,
-                 storage_of(b.cc), b.cc_vis);
-  }
-  if (presence & 4) {                                   // ~A();
-    pick(b.dt, b.dt_vis, true);
-#if DTORS == 0
-    ASSUME(b.dt != K_DELETE && b.dt_vis == A_PUBLIC);
+NOINL static void check_traits(CPPStructType *A, C10Bits b) {
+#ifdef VERIF_NATIVE
+  printf("class A: default ctor kind=%d access=%d, copy ctor kind=%d access=%d, destructor kind=%d access=%d, pure virtual=%d, member=%d\n",
+         b.dc, b.dc_vis, b.cc, b.cc_vis, b.dt, b.dt_vis, b.pv, b.mem);
+  printf("  (kind: 0 none 1 user 2 =default 3 =delete 4 virtual; access: 1 public 2 protected 3 private; member: 0 int, 1 const int, 2 int&, 3 int=0, 4 const int=0)\n");
+  printf("  interrogate: abstract=%d polymorphic=%d destructible=%d default_constructible=%d copy_constructible=%d\n",
+         (int)A->is_abstract(), (int)A->is_polymorphic(), (int)A->is_destructible(), (int)A->is_default_constructible(), (int)A->is_copy_constructible());
+  printf("  C++ (g++):   abstract=%d polymorphic=%d destructible=%d default_constructible=%d copy_constructible=%d\n",
+         (int)c10_abstract(b), (int)c10_polymorphic(b), (int)c10_destructible(b), (int)c10_default_constructible(b), (int)c10_copy_constructible(b));
 #endif
-    add_function(scope, "~A", new CPPParameterList, CPPFunctionType::F_destructor, storage_of(b.dt), b.dt_vis);
-  }
-  if (presence & 8) {                                   // virtual void f() = 0;
-    add_function(scope, "f", new CPPParameterList, 0, CPPInstance::SC_virtual | CPPInstance::SC_pure_virtual, A_PUBLIC);
-  }
-  {                                                     // the data member
-    CPPType *mt = (mem == M_CONST_INT || mem == M_CONST_INT_INIT) ? t_const_int : (mem == M_INT_REF ? t_int_ref : t_int);
-    CPPInstance *m = new CPPInstance(mt, std::string("m"));
-    m->_vis = V_public;
-    if (mem == M_INT_INIT || mem == M_CONST_INT_INIT) m->_initializer = new CPPExpression(0);
-    scope->_variables[std::string("m")] = m;
-  }
-
 #if CHECKS & 8
   ASSERT(A->is_abstract() == c10_abstract(b), "C10 is_abstract equals the C++ rule [class.abstract]");
 #endif
@@ -141,6 +110,69 @@ NOINL static void check_class(int presence, int mem) {
 #endif
 }
 
+// One class per presence pattern; HOW each present special member is declared is then varied in place: the kind
+// (user / =default / =delete / virtual) by concrete loops -- SC_virtual and SC_deleted decide the SHAPE of the
+// std::list that get_virtual_funcs builds, and a symbolic shape does not constant-propagate -- and the access by
+// the solver (symbolic _vis).
+NOINL static void check_class(int presence, int mem) {
+  C10Bits b;
+  b.dc = K_NONE; b.dc_vis = A_PUBLIC; b.cc = K_NONE; b.cc_vis = A_PUBLIC; b.dt = K_NONE; b.dt_vis = A_PUBLIC;
+  b.pv = (presence & 8) ? 1 : 0;
+  b.mem = mem;
+
+  // class A { ... };
+  CPPIdentifier *ident = new CPPIdentifier(std::string("A"));
+  CPPScope *scope = new CPPScope(nullptr, CPPNameComponent("A"), V_private);
+  CPPStructType *A = new CPPStructType(CPPExtensionType::T_class, ident, nullptr, scope, CPPFile());
+  scope->set_struct_type(A);
+  A->_incomplete = false;
+
+  CPPInstance *dc = nullptr, *cc = nullptr, *dt = nullptr;
+  if (presence & 1) {                                   // A();
+    dc = add_function(scope, "A", new CPPParameterList, CPPFunctionType::F_constructor, 0, A_PUBLIC);
+  }
+  if (presence & 2) {                                   // A(const A &);
+    CPPParameterList *params = new CPPParameterList;
+    CPPType *const_a_ref = new CPPReferenceType(new CPPConstType(A), CPPReferenceType::VC_lvalue);
+    params->_parameters.push_back(new CPPInstance(const_a_ref, std::string("copy")));
+    cc = add_function(scope, "A", params, CPPFunctionType::F_constructor | CPPFunctionType::F_copy_constructor, 0, A_PUBLIC);
+  }
+  if (presence & 4) {                                   // ~A();
+    dt = add_function(scope, "~A", new CPPParameterList, CPPFunctionType::F_destructor, 0, A_PUBLIC);
+  }
+  if (presence & 8) {                                   // virtual void f() = 0;
+    add_function(scope, "f", new CPPParameterList, 0, CPPInstance::SC_virtual | CPPInstance::SC_pure_virtual, A_PUBLIC);
+  }
+  {                                                     // the data member
+    CPPType *mt = (mem == M_CONST_INT || mem == M_CONST_INT_INIT) ? t_const_int : (mem == M_INT_REF ? t_int_ref : t_int);
+    CPPInstance *m = new CPPInstance(mt, std::string("m"));
+    m->_vis = V_public;
+    if (mem == M_INT_INIT || mem == M_CONST_INT_INIT) m->_initializer = new CPPExpression(0);
+    scope->_variables[std::string("m")] = m;
+  }
+
+  for (int dck = K_USER; dck <= K_DELETE; dck++) {
+    if (!dc && dck != K_USER) continue;
+    for (int cck = K_USER; cck <= K_DELETE; cck++) {
+      if (!cc && cck != K_USER) continue;
+      for (int dtk = K_USER; dtk <= K_VIRTUAL; dtk++) {
+        if (!dt && dtk != K_USER) continue;
+        if (!((KINDS >> ((dck - 1) * 12 + (cck - 1) * 4 + (dtk - 1))) & 1)) continue;
+        if (dc) { b.dc = dck; b.dc_vis = pick_vis(); dc->_storage_class = storage_of(dck); dc->_vis = (CPPVisibility)b.dc_vis; }
+        if (cc) { b.cc = cck; b.cc_vis = pick_vis(); cc->_storage_class = storage_of(cck); cc->_vis = (CPPVisibility)b.cc_vis; }
+        if (dt) {
+          b.dt = dtk; b.dt_vis = pick_vis(); dt->_storage_class = storage_of(dtk); dt->_vis = (CPPVisibility)b.dt_vis;
+#if DTORS == 0
+          if (dtk == K_DELETE) continue;
+          ASSUME(b.dt_vis == A_PUBLIC);
+#endif
+        }
+        check_traits(A, b);
+      }
+    }
+  }
+}
+
 extern "C" void harness_c10_traits() {
   t_void = new CPPSimpleType(CPPSimpleType::T_void);
   t_int = new CPPSimpleType(CPPSimpleType::T_int);
@@ -155,3 +187,41 @@ extern "C" void harness_c10_traits() {
   }
   WITNESS();
 }
+
+#ifdef C10_PROBE
+extern "C" void harness_c10_probe() {
+  t_void = new CPPSimpleType(CPPSimpleType::T_void);
+  CPPIdentifier *ident = new CPPIdentifier(std::string("A"));
+  ASSERT(ident->_names.size() == 1, "C10 probe names size");
+  ASSERT(ident->_names.back()._name.size() == 1, "C10 probe name length");
+  CPPScope *scope = new CPPScope(nullptr, CPPNameComponent("A"), V_private);
+  CPPStructType *A = new CPPStructType(CPPExtensionType::T_class, ident, nullptr, scope, CPPFile());
+  ASSERT(A->_ident == ident, "C10 probe ident");
+  ASSERT(A->_ident->_names.size() == 1, "C10 probe names size 2");
+#if C10_PROBE >= 2
+  std::string n = A->get_simple_name();
+  ASSERT(n.size() == 1, "C10 probe simple name length");
+#endif
+#if C10_PROBE >= 3
+  CPPInstance *dc = add_function(scope, "A", new CPPParameterList, CPPFunctionType::F_constructor, 0, A_PUBLIC);
+  ASSERT(scope->_functions.size() == 1, "C10 probe map size");
+  ASSERT(A->_ident->_names.size() == 1, "C10 probe names size 3");
+  std::string n2 = A->get_simple_name();
+  ASSERT(n2.size() == 1, "C10 probe simple name length 2");
+#endif
+#if C10_PROBE == 4
+  ASSERT(A->get_constructor() != nullptr, "C10 probe get_constructor");
+#endif
+#if C10_PROBE == 5
+  ASSERT(scope->_functions.begin()->first.size() == 1, "C10 probe key length");
+  ASSERT(scope->_functions.begin()->first[0] == 'A', "C10 probe key char");
+#endif
+#if C10_PROBE == 6
+  ASSERT(scope->_functions.begin()->first.compare(n2) == 0, "C10 probe key compare");
+#endif
+#if C10_PROBE == 7
+  ASSERT(scope->_functions.find(n2) != scope->_functions.end(), "C10 probe find");
+#endif
+  WITNESS();
+}
+#endif
